@@ -659,7 +659,7 @@ def parse_operand(tok):
     """-> dict(kind, val, ty)"""
     if tok == '-' or tok in ('r', 'x', 'y', 'X'):
         return dict(kind=tok)
-    if tok[0] in 'riu':
+    if tok[0] in 'riuk':
         return dict(kind=tok[0], val=int(tok[2:], 16))
     body, _, val = tok[1:].partition(':')
     f = body.split(',')
